@@ -231,6 +231,13 @@ def Sat.row (s : Sat) (i : Fin 4) : Rat :=
 /-- `Q = H.T @ H` -/
 def normal (sats : List Sat) : Mat4 := fun i j => (sats.map (fun s => s.row i * s.row j)).sum
 
+/-- the sixteen entries as data (evaluated once) -/
+def table (m : Mat4) : List (List Rat) :=
+  (List.finRange 4).map (fun i => (List.finRange 4).map (fun j => m i j))
+
+/-- back to a matrix: `ofTable (table m) = m` (`ofTable_table`) -/
+def ofTable (v : List (List Rat)) : Mat4 := fun i j => (v.getD i.val []).getD j.val 0
+
 /-- index of the k-th remaining row/column after deleting `r` -/
 def skip (r : Fin 4) (k : Fin 3) : Fin 4 :=
   if k.val < r.val then ⟨k.val, by omega⟩ else ⟨k.val + 1, by omega⟩
@@ -269,7 +276,8 @@ def dopsOf (q : Mat4) : Dops :=
 
 /-- `compute_dops`; `none` when `HᵀH` is singular (the code then returns five `None`s) -/
 def computeDops (sats : List Sat) : Option Dops :=
-  let q := normal sats
+  let v := table (normal sats)
+  let q := ofTable v
   if det4 q = 0 then none else some (dopsOf (inv4 q))
 
 /-! ## Plate motion (`PlateMotion.get_velocity`, system "trs") -/
